@@ -153,17 +153,20 @@ TraceInit ==
 StepLine(line) ==
   LET e    == EvOf(line)
       faulted == e.fault > 0 /\ line.resp.faultHit
-      r    == Apply(st, cfg, e)
-      r0   == IF e.fault > 0 THEN Apply(st, cfg, [e EXCEPT !.fault = 0]) ELSE r
+      \* (the harness re-projects before a request when the TOTP period has moved on since the last step:
+      \*  a stored last-used code is then nobody's current code any more)
+      st0  == IF "pre" \in DOMAIN line.resp THEN FromObs(line.resp.pre, cfg, st.iss, st.scPhone, st.spent) ELSE st
+      r    == Apply(st0, cfg, e)
+      r0   == IF e.fault > 0 THEN Apply(st0, cfg, [e EXCEPT !.fault = 0]) ELSE r
       obsLive == Live(FromObs(line.post, cfg, line.iss, {}, {}))
       S2   == FromObs(line.post, cfg, line.iss,
-                      st.scPhone \cup {<<s.code, s.phone>> : s \in SmsObsSet(line.resp.sms)},
-                      IF faulted THEN st.spent \cup Known(Live(st) \ obsLive) ELSE r.st.spent)
+                      st0.scPhone \cup {<<s.code, s.phone>> : s \in SmsObsSet(line.resp.sms)},
+                      IF faulted THEN st0.spent \cup Known(Live(st0) \ obsLive) ELSE r.st.spent)
       d    == Diff(r.st, cfg, line.post) \cup (IF e.act \in EnvActs THEN {} ELSE RespDiff(r.resp, line.resp))
       pv   == IF faulted
-              THEN FaultViolations(st, S2, cfg, e, RespFromObs(line.resp), r0)
-                   \cup (PropViolations(st, S2, cfg, e, RespFromObs(line.resp)) \cap FaultTolerantClauses)
-              ELSE PropViolations(st, S2, cfg, e, RespFromObs(line.resp))
+              THEN FaultViolations(st0, S2, cfg, e, RespFromObs(line.resp), r0)
+                   \cup (PropViolations(st0, S2, cfg, e, RespFromObs(line.resp)) \cap FaultTolerantClauses)
+              ELSE PropViolations(st0, S2, cfg, e, RespFromObs(line.resp))
       \* advisory: the whole diff of a faulted step (fault model), and the call protocol of a fault-free one
       isAdv == d # {} /\ (e.fault > 0 \/ \A x \in d : x[1] = "resp.calls")
       add1 == IF d = {} \/ (isAdv /\ adv >= MaxAdv) THEN <<>>
